@@ -95,6 +95,12 @@ def hostile_seeds(rng, n):
     out.append(b'Content-Type: multipart/mixed; boundary="b"\n\n--b\n')
     out.append(b'Content-Type: multipart/mixed; boundary="b"\n\n--b--')
     out.append(b'Content-Type: multipart/mixed; boundary="' + b'b' * 5000 + b'"\n\n--' + b'b' * 5000 + b'\nTo: x\n\ny\n--' + b'b' * 5000 + b'--\n')
+    # boundaries out of RFC 2047 encoded words (newline, CR, control bytes, "--") with delimiter look-alikes: findboundary compares bytes
+    # and resumes after the text it compared (the witness that separated the former list model from message.c, and its relatives)
+    out.append(gen_msg.PG2_WITNESS)
+    out += gen_msg.PG2_RELATIVES
+    for _ in range(40):
+        out.append(gen_msg.encoded_boundary_message(rng))
     out.append(b'Date: ' + b'9' * 400 + b'\n\n')
     out.append(b'Date: Mon, 31 Feb 2025 25:61:61 +9999\n\n')
     out.append(b'Date: Thu, 01 Jan 1970 00:00:00 -9999\n\n')
